@@ -16,7 +16,7 @@ COMMON_NOTE = ("Trusts rustc's MIR construction (nightly 1.97, mir-opt-level=0) 
 CHECKS = {
     'C01': dict(
         technique='static analysis: sibling cross-check of provenance terms (sender vs receiver wiring), length algebra on MIR',
-        text='Static analysis of the type-checked program. Decides that sender and receiver are wired symmetrically: both setups feed the same key-schedule function with (mode, KEM output, info); for each of the 4 KEMs and both branches encap and decap hand the same (ikm, kem_context) terms to ExtractAndExpand modulo DH commutativity; seal and open use the same nonce helper, aad and buffer wiring; ciphertext length = plaintext length + Nt. Does not decide that decrypt inverts encrypt or that HKDF/DH are deterministic (trusted base).'),
+        text='Static analysis of the type-checked program. Decides that sender and receiver are wired symmetrically: both setups feed the same key-schedule function with (mode, KEM output, info); for each of the 4 KEMs and both branches encap and decap hand the same (ikm, kem_context) terms to ExtractAndExpand modulo DH commutativity; seal and open use the same nonce helper, aad and buffer wiring; ciphertext length = plaintext length + Nt; setup/context/single-shot bodies are parametric in A/Kdf/Kem (no concrete algorithm substituted). Does not decide that decrypt inverts encrypt or that HKDF/DH are deterministic (trusted base).'),
     'C02': dict(
         technique='static analysis: provenance terms of the key schedule / labeled KDF / suite ids compared with RFC 9180 reference terms and tables; bit-provenance of integer encoders; type-level size tables',
         text='Static analysis of the type-checked program against a hand-encoded RFC 9180 oracle (labels, orders, identifiers, sizes). Decides the wiring of LabeledExtract/LabeledExpand, suite_id, KeySchedule, mode bytes, ComputeNonce, Seal/Open/Export and the id/size tables for every input. Byte-exactness of HKDF, AES-GCM, ChaCha20Poly1305, SHA-2 and the curves is the trusted base.'),
@@ -55,10 +55,10 @@ CHECKS = {
         text='The compiler type-checks the library for a pairwise-covering array of feature subsets (quick) or all 64 subsets x (lib, tests) plus examples/benches (thorough); the exported API surface of each analysed subset equals the expected table (in-place always, allocating iff alloc|std, each KEM iff its feature, std::error::Error iff std); every body shared between a subset and the all-features build has identical canonical MIR (or an identical view-erased provenance summary where only trait-method resolution differs), so there is no cfg-dependent code inside bodies. Running each subset\'s tests and comparing run-time outputs is not done (run-time).'),
     'C18': dict(
         technique='static analysis: zero-count item enumerations with positive controls, callee allow/deny lists on resolved MIR calls, receiver/who-writes facts, RNG dataflow for the ephemeral key, compile-time Send+Sync+Freeze witnesses over all suites decided by rustc',
-        text='Static analysis: no statics with state, thread-locals, interior mutability, or user unsafe anywhere in the crate; no ambient-state callee; export takes &self and writes nothing, all context writers take &mut self; the ephemeral key is derived from bytes drawn from the caller\'s RNG in the same call; Send+Sync+Freeze of every public type for all AEAD x KDF x KEM combinations is decided by the type checker on a generated witness crate (with a non-vacuity twin). Data-race freedom and order independence then follow from Rust\'s guarantees for safe code; dependency crates are assumed free of hidden global state.'),
+        text='Static analysis: no statics with state, thread-locals, interior mutability, or user unsafe anywhere in the crate; no ambient-state callee; export takes &self and writes nothing, all context writers take &mut self; the ephemeral key is derived from bytes drawn from the caller\'s RNG in the same call and that buffer has no other writer (iterator/closure writes included); no address-derived value (pointer-to-int cast, addr(), {:p}) exists anywhere; Send+Sync+Freeze of every public type for all AEAD x KDF x KEM combinations is decided by the type checker on a generated witness crate (with a non-vacuity twin). Data-race freedom and order independence then follow from Rust\'s guarantees for safe code; dependency crates are assumed free of hidden global state.'),
     'C11': dict(
         technique='static analysis: provenance term of export vs RFC 9180 §5.3, error-mapping and pass-through proof, single-writer enumeration + rustc Freeze witnesses (history independence), CFG divergence of the export-only AEAD',
-        text='Static analysis: export is LabeledExpand(exporter_secret, "sec", ctx, L) on both roles with errors mapped to KdfOutputTooLong; it takes &self, the contexts are Freeze for all suites (compiler witness) and exporter_secret/suite_id are written only by the constructor, hence the result is independent of the call history; exporter_secret = LabeledExpand(secret, "exp", ksc, Nh); the HKDF length verdict is propagated unchanged and 255*Nh <= 65535; the export-only AEAD diverges on seal/open. The 255*Nh comparison itself lives in the hkdf crate (trusted) and output values are not computed.'),
+        text='Static analysis: export is LabeledExpand(exporter_secret, "sec", ctx, L) on both roles with errors mapped to KdfOutputTooLong; it takes &self, the contexts are Freeze for all suites (compiler witness) and exporter_secret/suite_id are written only by the constructor, hence the result is independent of the call history; exporter_secret = LabeledExpand(secret, "exp", ksc, Nh); the HKDF length verdict is propagated unchanged, 255*Nh <= 65535, and any early length guard lets every L <= 255*Nh through for every KDF (simulated); export/key-schedule bodies are parametric in the suite; the export-only AEAD diverges on seal/open. The 255*Nh comparison itself lives in the hkdf crate (trusted) and output values are not computed.'),
     'C12': dict(
         technique='static analysis: type-level size table against RFC 9180 Table 2/5, guard-dominance on MIR for every from_bytes/write_exact impl, decision tables of the two length helpers',
         text='Static analysis: RFC sizes Npk/Nsk/Nenc/Ndh/Nt at type level for every Serializable impl; every from_bytes starts with the exact-length guard (expected = Self::OutputSize, given = len) dominating all other uses of the input, or delegates the whole input; every write_exact has a mechanism that panics exactly on a length mismatch before any partial write; helper decision tables; NIST keys are encoded uncompressed. The round-trip/canonicity clause (from_bytes(to_bytes(x)) == x) is numerical inside the dependency encoders and is not decided.'),
@@ -67,7 +67,7 @@ CHECKS = {
         text='Static analysis: every panic-capable MIR site (Assert terminators, unwrap/expect, slice indexing, copy_from_slice, split_at, array conversions, explicit panics, allocation) reachable from any exported or externally reachable function is enumerated; every other external callee must be in a reasoned panic-free table (fail closed); each site is discharged by one of nine structural rules quantifying over all Aead/Kdf/Kem impls, or is one of the frozen entries (write_exact\'s documented contract on the caller\'s own buffer, DeriveKeyPair exhaustion, export-only AEAD, allocation). Sender setup error set = {EncapError}, receiver = {DecapError}. Dependency crates are assumed panic-free for the calls used.'),
     'C14': dict(
         technique='static analysis: pass-through proof on MIR provenance terms (argument i -> parameter j, error identity, result identity), writer-sequence recognition for the allocating forms',
-        text='Static analysis proving each single_shot_* body is exactly setup_* followed by one context-method call on the fresh context with its own parameters in order, errors and results unchanged, and that seal/open wrap the in-place forms (copy, in-place call on buf[..len], tag at [len..len+Nt) / split at len-Nt). Equivalence with the composed calls then holds for all inputs given the composed functions are functions of their arguments (C18).'),
+        text='Static analysis proving each single_shot_* body is exactly setup_* followed by one context-method call on the fresh context with its own parameters in order, errors and results unchanged, generic arguments passed through (no concrete Aead/Kdf/Kem named in suite-generic bodies), and that seal/open wrap the in-place forms (copy, in-place call on buf[..len], tag at [len..len+Nt) / split at len-Nt). Equivalence with the composed calls then holds for all inputs given the composed functions are functions of their arguments (C18).'),
 }
 
 # properties whose check is not (yet) registered
